@@ -1,6 +1,7 @@
 //! C18, k-mer half: complete Kani harnesses (loop-free over the full storage domain) through the REAL
 //! serde derive expansion of `Kmer` and the real bincode 1.3 encoder/decoder.
 use bio_seq::prelude::*;
+use bio_seq::codec::{masked, text};
 use core::marker::PhantomData;
 
 macro_rules! kmer_bincode {
@@ -27,3 +28,10 @@ kmer_bincode!(kmer_bincode_dna_k32_u64, Dna, 32, u64);
 kmer_bincode!(kmer_bincode_dna_k64_u128, Dna, 64, u128);
 kmer_bincode!(kmer_bincode_iupac_k32_u128, Iupac, 32, u128);
 
+// thorough tier: further instantiations (every stored codec width, odd K, small K on wide storage)
+kmer_bincode!(kmer_bincode_amino_k10, Amino, 10, usize);
+kmer_bincode!(kmer_bincode_text_k8, text::Dna, 8, usize);
+kmer_bincode!(kmer_bincode_masked_iupac_k12, masked::Iupac, 12, usize);
+kmer_bincode!(kmer_bincode_dna_k5_u64, Dna, 5, u64);
+kmer_bincode!(kmer_bincode_amino_k21_u128, Amino, 21, u128);
+kmer_bincode!(kmer_bincode_dna_k33_u128, Dna, 33, u128);
